@@ -46,3 +46,76 @@ Qed.
 
 Theorem sect_tree_partition : forall t, concat (sect_tree t []) = preorder t.
 Proof. intro t. now rewrite sect_tree_concat. Qed.
+
+(* ------------------------------------------------------------------ what a group is *)
+(* chain t l e : l lists the ids from the root of t downwards through nodes that have exactly ONE child,
+   ending with the root of the subtree e (so consecutive members are parent and only child) *)
+Inductive chain : tree -> list Z -> tree -> Prop :=
+| chain_end : forall t, chain t [root_id t] t
+| chain_step : forall n k l e, chain k l e -> chain (Node n [k]) (n :: l) e.
+
+Inductive subtree : tree -> tree -> Prop :=
+| sub_refl : forall t, subtree t t
+| sub_kid : forall n kids k s, In k kids -> subtree k s -> subtree (Node n kids) s.
+
+(* where a group may start: at the given root, or at a child of a branch point (>= 2 children) *)
+Definition branch_start (T s : tree) : Prop :=
+  s = T \/ exists n kids, subtree T (Node n kids) /\ (2 <= length kids)%nat /\ In s kids.
+
+Lemma subtree_trans : forall a b c, subtree a b -> subtree b c -> subtree a c.
+Proof. induction 1; intros; auto. econstructor; eauto. Qed.
+
+Lemma sect_tree_groups_gen : forall t cur g, In g (sect_tree t cur) ->
+  (exists l e, g = (rev cur ++ l)%list /\ chain t l e /\ length (subtrees e) <> 1%nat) \/
+  (exists n kids s e, subtree t (Node n kids) /\ (2 <= length kids)%nat /\ In s kids /\
+                      chain s g e /\ length (subtrees e) <> 1%nat).
+Proof.
+  induction t as [n kids IH] using tree_ind'; intros cur g Hg.
+  destruct kids as [|k [|k2 r]].
+  - simpl in Hg. destruct Hg as [<-|[]]. left. exists [n], (Node n []). repeat split.
+    + constructor.
+    + simpl. lia.
+  - inversion IH as [|? ? Hk _]; subst. cbn [sect_tree] in Hg. apply Hk in Hg.
+    destruct Hg as [[l [e [-> [Hc He]]]]|[n' [kids' [s [e [Hs [Hlen [Hin [Hc He]]]]]]]]].
+    + left. exists (n :: l), e. repeat split; auto.
+      * simpl. now rewrite <- app_assoc.
+      * now constructor.
+    + right. exists n', kids', s, e. repeat split; auto. eapply sub_kid; [now left|auto].
+  - cbn [sect_tree] in Hg. destruct Hg as [<-|Hg].
+    + left. exists [n], (Node n (k :: k2 :: r)). repeat split.
+      * constructor.
+      * simpl. lia.
+    + apply in_flat_map in Hg. destruct Hg as [x [Hx Hg]].
+      rewrite Forall_forall in IH. apply (IH x Hx) in Hg.
+      destruct Hg as [[l [e [-> [Hc He]]]]|[n' [kids' [s [e [Hs [Hlen [Hin [Hc He]]]]]]]]].
+      * right. exists n, (k :: k2 :: r), x, e. repeat split; auto; [constructor|simpl; lia].
+      * right. exists n', kids', s, e. repeat split; auto. eapply sub_kid; eauto.
+Qed.
+
+(* every group is an unbranched parent-to-only-child chain that cannot be extended: it ends at a segment with
+   no child or with several, and starts at the given root or right below a branch point *)
+Theorem sect_tree_groups : forall T g, In g (sect_tree T []) ->
+  exists s e, branch_start T s /\ chain s g e /\ length (subtrees e) <> 1%nat.
+Proof.
+  intros T g Hg. apply sect_tree_groups_gen in Hg.
+  destruct Hg as [[l [e [-> [Hc He]]]]|[n [kids [s [e [Hs [Hlen [Hin [Hc He]]]]]]]]].
+  - exists T, e. repeat split; auto. now left.
+  - exists s, e. repeat split; auto. right. eauto.
+Qed.
+
+Lemma chain_head : forall t l e, chain t l e -> hd 0 l = root_id t /\ l <> [].
+Proof. induction 1; simpl; split; auto; discriminate. Qed.
+
+Lemma chain_last : forall t l e, chain t l e -> last l 0 = root_id e.
+Proof.
+  induction 1 as [t|n k l e Hc IH]; simpl; auto.
+  destruct l as [|x r]; [destruct (chain_head _ _ _ Hc) as [_ Hn]; congruence|exact IH].
+Qed.
+
+(* with distinct ids the groups are pairwise disjoint and free of repetitions *)
+Theorem sect_tree_nodup : forall t, NoDup (preorder t) -> NoDup (concat (sect_tree t [])).
+Proof. intros t H. now rewrite sect_tree_partition. Qed.
+
+Example sect_tree_example :
+  sect_tree (Node 0 [Node 1 [Node 2 []; Node 3 [Node 4 []]]]) [] = [[0; 1]; [2]; [3; 4]].
+Proof. reflexivity. Qed.
